@@ -38,7 +38,7 @@ ASSUMPTIONS = [
 FLOORS = {
     "quick": {"accepted-with-ext-constructs": 3000, "removal-cases": 5000, "lookalike-cases": 20000,
               "parses-after-extensions-were-registered-by-hand": 30000, "source-walks": 3000,
-              "lookalike-str-with-lone-surrogate": 1000,
+              "lookalike-str-with-lone-surrogate": 1000, "require-hidden-in-a-literal": 3000,
               "constructs-checked": 10000},
     "thorough": {"accepted-with-ext-constructs": 60000, "removal-cases": 100000, "lookalike-cases": 400000,
                  "parses-after-extensions-were-registered-by-hand": 600000, "source-walks": 60000,
@@ -319,6 +319,18 @@ def run_lookalike(shard, res):
                 res.count("lookalike-cases")
                 res.observe("lookalike:extension", e)
                 check_accept("lookalike", data, {"toks": toks}, res)
+        # the only require naming the extension stands INSIDE a multi-line literal, behind a
+        # body line that nearly is the terminator (a dot followed by blanks)
+        for blank in (b" ", b"\t", b"\x0c", b"\x0b", b" \t "):
+            for nl in (b"\n", b"\r\n"):
+                hidden = (b'require "reject";' + nl + b"reject text:" + nl + b"." + blank + nl
+                          + b'; require ["%s"%s]; reject text:' % (
+                              e.encode(), b"".join(b', "%s"' % x.encode() for x in others))
+                          + nl + b"." + nl + b";" + nl)
+                data = hidden + gen.join_tokens(body)
+                res.count("lookalike-cases")
+                res.count("require-hidden-in-a-literal")
+                check_accept("lookalike", data, {}, res)
         # the script as a str holding a lone surrogate inside the capability name (text
         # read with errors="surrogateescape"): whatever parse(str) does with it, it must not
         # accept the body on the strength of a name the script does not contain
